@@ -275,6 +275,53 @@ def h15e_setattr(attr, flag, size, r, g, b):
     assert st._update_cell_style == (attr in CELL_ATTRS)
 
 
+class StyleSaver:
+    """self for the real _NumbersModel.update_cell_styles; add_cell_style records what the archive was built from"""
+    update_cell_styles = _NumbersModel.update_cell_styles
+
+    def __init__(self):
+        self.archives = {}
+        self.next_id = 500
+
+    def add_cell_style(self, style):
+        self.next_id += 1
+        self.archives[self.next_id] = cell_level(style)
+        return self.next_id
+
+
+def cell_level(style):
+    c = style.bg_color
+    return (None if c is None else (c.r, c.g, c.b), style.alignment.vertical, style.text_inset, style.text_wrap,
+            style.first_indent, style.left_indent, style.right_indent)
+
+
+def styled_cell(style):
+    return Rec(_style=style, style=style)
+
+
+def h15f_cell_style_archives(r1, g1, b, r2, g2, r3, wrap2, same_object, second_save, recolour):
+    """save writes, for every styled cell, a cell-style archive built from THAT cell's current cell-level attributes -
+    for any two styles in one table (colours, inset, wrap symbolic) and again on a second save after an attribute of
+    an already saved style was changed"""
+    for v in (r1, g1, b, r2, g2, r3):
+        assume(0 <= v <= 255)
+    s1 = Style(bg_color=RGB(r1, g1, b))
+    s2 = s1 if same_object else Style(bg_color=RGB(r2, g2, b), text_wrap=wrap2)
+    cells = [styled_cell(s1), styled_cell(s2), Rec(_style=None, style=None)]
+    m = StyleSaver()
+    m.update_cell_styles(7, [cells[:2], cells[2:]])
+    for c in cells[:2]:
+        assert m.archives[c._style._cell_style_obj_id] == cell_level(c._style)
+    if second_save:
+        if recolour:
+            s1.bg_color = RGB(r3, g1, b)
+        else:
+            s1.text_wrap = not s1.text_wrap
+        m.update_cell_styles(7, [cells[:2], cells[2:]])
+        for c in cells[:2]:
+            assert m.archives[c._style._cell_style_obj_id] == cell_level(c._style)
+
+
 class StyleSource:
     """model accessors a style is read from: one distinct value per attribute"""
 
@@ -386,6 +433,15 @@ HARNESSES += [
     Harness("H15e-setattr", h15e_setattr, dict(attr=Cases(PUBLIC), flag=BoolDom(), size=IntDom(), r=IntDom(), g=IntDom(), b=IntDom()),
             bounds="each of the 16 public Style attributes assigned once; colour components, sizes and flags symbolic",
             outside=["writing the style archives (nested protobuf construction)"]),
+    Harness("H15f", h15f_cell_style_archives,
+            dict(r1=IntDom(), g1=IntDom(), b=IntDom(), r2=IntDom(), g2=IntDom(), r3=IntDom(),
+                 wrap2=BoolDom(), same_object=Cases([False, True]), second_save=Cases([False, True]), recolour=Cases([False, True])),
+            bounds="two styled cells and one unstyled cell in one table; background colours with every red and green component "
+                   "(0..255 each, both styles) and a shared blue component, wrap flag of the second style; the two cells sharing "
+                   "one Style object or not; one save, or two saves with a colour / wrap change on the saved style in between",
+            stubs=["add_cell_style replaced by a recorder of the cell-level attributes it was handed (archive construction is protobuf)",
+                   "cells = attribute bags with _style / style"],
+            outside=["background images", "alignment / indents / inset varied (kept at defaults)", "blue components that differ"]),
     Harness("H15e-from_storage", h15e_from_storage,
             dict(bold=BoolDom(), italic=BoolDom(), strike=BoolDom(), under=BoolDom(), wrap=BoolDom(), size=IntDom(), i1=IntDom(0, 99),
                  i2=IntDom(0, 99), i3=IntDom(0, 99), inset=IntDom(0, 99), tid=IntDom(1, 2 ** 20), cid=IntDom(1, 2 ** 20)),
